@@ -204,6 +204,10 @@ def stepLine (net : Net) (toks : List String) : Net × String :=
         match getNode net i with
         | some n => finish net (apiTunnelNested sym n cid mid)
         | none => bad
+      | "sx", [o, cid, ident, pk] =>
+        match getNode net o with
+        | some n => finish net (apiSendExtend sym n cid ident pk)
+        | none => bad
       | "png", [o] =>
         match getNode net o with
         | some n => finish net (apiPing sym n)
